@@ -466,6 +466,12 @@ def run_case(ctx, case):
                     ev.append("excluded:table-eq-different-slot-order")
                 return None
             post.append(chk_cp)
+        if keys and len(vals) >= 2 and vals[0] != vals[-1]:
+            # the copy with ONE value replaced (same keys): whatever eq says about it and the original, eq implies equal
+            # hashes (an eq that looks at keys only would call them equal while the hashes differ)
+            P.add("set %%2 %s %s" % (keys[0], vals[-1] if vals[0] != vals[-1] else vals[0]), lambda o: None if o.startswith("ok") else "set failed " + o)
+            eq_and_hash(0, 2, "one-value-changed", assert_eq=False)
+            ev.append("map:one-value-changed")
         nt = case["builds"][0] != case["builds"][1] or not keys
         ev += ["kind=" + k for k in kinds] + ["via=" + b["via"] for b in case["builds"]]
         ev.append("map-types=%s,%s" % (kt, vt))
